@@ -4,6 +4,7 @@
 #include <map>
 #include <memory>
 #include <regex>
+#include <stdexcept>
 #include <string>
 #include <thread>
 #include <vector>
@@ -146,8 +147,13 @@ void do_op(int t, const OpSpec &o) {
                 auto it = g_handles.find(o.id);
                 if (it != g_handles.end()) h = it->second.get();
             }
-            if (h) (*h)->unsubscribe();
-            ret(t, 0);
+            long r = 0;
+            try {
+                if (h) (*h)->unsubscribe();
+            } catch (const std::invalid_argument &) {
+                r = -1;   // a stale handle: the observer it belonged to is gone
+            }
+            ret(t, r);
             break;
         }
         case 'N': {
